@@ -371,6 +371,8 @@ def payScUnb (b : Bank) (t : Int) : List Unb → Option (Bank × List Unb)
     else (payScUnb b t r).map fun (b', r') => (b', u :: r')
 
 def doBlock (s : St) (t : Int) : Res St :=
+  if t < s.now then .err "time"      -- block time is monotone (BFT time)
+  else
   let (b1, ub) := releaseUbds s.bank t s.ubds
   match payScUnb b1 t s.scUnb with
   | none => .err "halt"
